@@ -22,7 +22,7 @@ RULE = ('each case = 15-60 header-carrying calls (send_headers, push_stream) on 
         'followed by successfully decoded blocks; distinct = hash of the call list')
 MINIMA = {'blocks_decoded_and_matched': 15000, 'raising_calls_judged': 6000, 'encoder_snapshots_compared': 6000,
           'table_size_changes_delivered': 1500, 'blocks_after_raising_call': 6000,
-          'blocks_spanning_continuation_frames': 300, 'cases_with_outbound_validation_off': 300}
+          'blocks_spanning_continuation_frames': 300, 'cases_with_outbound_validation_off': 300, 'trailers_with_an_odd_element': 1000, 'requests_with_host_and_authority': 300, 'requests_with_unusual_authority': 200}
 
 
 def n_cases(tier):
@@ -206,8 +206,30 @@ def run_case(idx, rng, tier, rep):
             rep.count('table_size_changes_delivered')
             calls.append(('peer-settings', pairs, reps))
             continue
-        kind = rng.choice(['ok', 'ok', 'bad-headers', 'bad-state', 'bad-priority', 'push-ok', 'push-bad', 'trailers-ok'])
+        kind = rng.choice(['ok', 'ok', 'bad-headers', 'bad-state', 'bad-priority', 'push-ok', 'push-bad', 'trailers-ok', 'odd-trailers'])
         before = enc_snapshot(t.c)
+        if kind == 'odd-trailers':
+            # trailers in which one element is not a (name, value) pair of strings: whether the call takes it (a third element is
+            # how hpack itself marks a sensitive field) or raises, a raise leaves no trace and the stream can still be ended
+            if not trailer_streams:
+                continue
+            sid = trailer_streams.pop(0)
+            odd = rng.choice([(b'x-odd', b'v', False), (b'x-odd', b'v', True), (b'x-odd',), (b'x-odd', None), (b'x-odd', 7)])
+            hs = fields(rng.randrange(1, 4)) + [tagf]
+            pos = rng.randrange(0, len(hs) + 1)
+            res = t.call('send_headers', sid, hs[:pos] + [odd] + hs[pos:], end_stream=True)
+            calls.append(('odd-trailers', sid, repr(odd)))
+            rep.count('trailers_with_an_odd_element')
+            if res.exc is None:
+                if len(odd) >= 2 and isinstance(odd[1], bytes):
+                    judge_ok(res, hs[:pos] + [odd[:2]] + hs[pos:], 'send_headers')
+                else:
+                    h.decode_blocks(res.frames)      # (taken as it is: the monitor's decoder follows, the content is not judged)
+                closed.append(sid)
+            else:
+                judge_raise(res, before, 'send_headers')
+                trailer_streams.append(sid)
+            continue
         if e_client:
             if kind in ('push-ok', 'push-bad'):
                 kind = 'ok'
@@ -215,6 +237,19 @@ def run_case(idx, rng, tier, rep):
                 sid = h.e_next
                 h.e_next += 2
                 hs = REQ[:] + fields(rng.randrange(0, 6)) + maybe_big() + [tagf]
+                r1 = rng.random()
+                if r1 < 0.15:
+                    # a Host field that agrees with :authority, somewhere among the other fields (not only at the end)
+                    hs.insert(rng.randrange(len(REQ), len(hs)), (rng.choice([b'host', b'Host'] if cfg['normalize_outbound_headers'] else [b'host']),
+                                                                 b'example.com'))
+                    rep.count('requests_with_host_and_authority')
+                elif r1 < 0.25:
+                    # authorities that are unusual as names but are just octets to HTTP/2 (text or bytes; long or empty labels)
+                    odd = rng.choice(['a' * 70 + '.example', 'example..com', '.example', 'xn--' + 'b' * 64, 'ex ample'])
+                    if odd == 'ex ample' and cfg['validate_outbound_headers']:
+                        odd = 'example..com'
+                    hs = [(n, odd if rng.random() < 0.6 else odd.encode()) if n == b':authority' else (n, v) for n, v in hs]
+                    rep.count('requests_with_unusual_authority')
                 es = rng.random() < 0.4
                 pkw = {}
                 if rng.random() < 0.3:
